@@ -86,6 +86,10 @@ type Store struct {
 	nextID   int
 	IDPrefix string
 
+	// live: the storage's own in-memory user records (users / byLogin stay pristine: they are the model the oracles read)
+	live        map[string]UserSpec
+	liveByLogin map[string]UserSpec
+
 	faults []Fault
 	counts map[string]int
 	Log    []Call
@@ -117,7 +121,7 @@ func lenientKey(id string) string {
 func newStore() *Store {
 	return &Store{
 		sps: map[string]*serviceprovider.ServiceProvider{}, spSpecs: map[string]SPSpec{}, apps: map[string]string{},
-		users: map[string]UserSpec{}, byLogin: map[string]UserSpec{}, requests: map[string]*AuthRequest{},
+		users: map[string]UserSpec{}, byLogin: map[string]UserSpec{}, live: map[string]UserSpec{}, liveByLogin: map[string]UserSpec{}, requests: map[string]*AuthRequest{},
 		counts: map[string]int{}, IDPrefix: "stored-",
 	}
 }
@@ -467,7 +471,7 @@ func applyUser(u UserSpec, set models.AttributeSetter) {
 		set.SetUserID(u.UserIDAttr)
 	}
 	for _, c := range u.Custom {
-		set.SetCustomAttribute(c.Name, c.FriendlyName, c.NameFormat, append([]string(nil), c.Values...))
+		set.SetCustomAttribute(c.Name, c.FriendlyName, c.NameFormat, c.Values) // the slice itself, not a copy
 	}
 }
 
@@ -480,7 +484,7 @@ func (s *Store) SetUserinfoWithUserID(ctx context.Context, appID string, set mod
 	if kind == "partial" || kind == "errval" {
 		// the lookup fills the setter and then fails (a storage that streams attributes and loses its connection)
 		c.Err = ErrInjected.Error()
-		if u, ok := s.users[userID]; ok {
+		if u, ok := s.live[userID]; ok {
 			if kind == "partial" {
 				// the connection is lost half way: only the first attributes arrive
 				u.Email, u.FullName, u.UserIDAttr = "", "", ""
@@ -496,7 +500,7 @@ func (s *Store) SetUserinfoWithUserID(ctx context.Context, appID string, set mod
 		c.Err = ErrInjected.Error()
 		return injected(kind)
 	}
-	u, ok := s.users[userID]
+	u, ok := s.live[userID]
 	if !ok {
 		c.Err = "not found"
 		return fmt.Errorf("user not found")
@@ -513,7 +517,7 @@ func (s *Store) SetUserinfoWithLoginName(ctx context.Context, set models.Attribu
 	kind, c := s.enter("SetUserinfoWithLoginName", loginName)
 	if kind == "partial" || kind == "errval" {
 		c.Err = ErrInjected.Error()
-		if u, ok := s.byLogin[loginName]; ok {
+		if u, ok := s.liveByLogin[loginName]; ok {
 			if kind == "partial" {
 				u.Email, u.FullName, u.UserIDAttr = "", "", ""
 				if len(u.Custom) > 0 {
@@ -528,7 +532,7 @@ func (s *Store) SetUserinfoWithLoginName(ctx context.Context, set models.Attribu
 		c.Err = ErrInjected.Error()
 		return injected(kind)
 	}
-	u, ok := s.byLogin[loginName]
+	u, ok := s.liveByLogin[loginName]
 	if !ok {
 		c.Err = "not found"
 		return fmt.Errorf("user not found")
@@ -656,6 +660,15 @@ func Build(spec Spec) (*World, error) {
 	for _, u := range spec.Users {
 		st.users[u.UserID] = u
 		st.byLogin[u.LoginName] = u
+		// the records the storage works with: its own memory, handed to the IdP as it is (like a cache of rows would be)
+		l := u
+		l.Custom = nil
+		for _, c := range u.Custom {
+			c.Values = append([]string(nil), c.Values...)
+			l.Custom = append(l.Custom, c)
+		}
+		st.live[u.UserID] = l
+		st.liveByLogin[u.LoginName] = l
 	}
 	for _, r := range spec.Requests {
 		st.requests[r.ID] = &AuthRequest{S: r, Seeded: true}
